@@ -1122,3 +1122,13 @@ PLAN['C06']['rule'] += (' spec/PollardAlg.tla transcribes the Undo of the pointe
                         'root list, a node per deleted leaf, twins joined, nodes put back from the highest position down) and TLC checks that after every '
                         'block and its undo walking nieces from the roots again finds Forest!NodeAt of the previous state and all aunt pointers are right; '
                         'the variant that does not put the empty roots back is refuted.')
+
+
+# --------------------------------------------------------------------------- C05 on partial forests (incl. a caller that reuses its buffers)
+_c05p = PLAN['C05']['stages']
+PLAN['C05']['stages'] = lambda tier, seed: _c05p(tier, seed) + (
+    [partial('partial_all', ALLP, 4, 2, stack=1, und=1, fr=1, last=True)] if tier == 'quick' else
+    [partial('partial_all', ALLP, 5, 3, stack=2, und=2, fr=1)])
+PLAN['C05']['rule'] += (' Partial forests (spec/Partial.tla): every block applied after any interleaving of remembering verifications, ingestions, '
+                        'prunes, refused calls and undos must give the reference roots - also on an instance whose caller decodes every message into '
+                        'the same buffers (the arguments of consecutive calls share their backing arrays).')
